@@ -14,6 +14,7 @@ def run(ctx):
         {"scens": [s for s in wcat.token_scenarios(("file", "process")) if s["name"].endswith(":fail")], "policies": ("FIFO", "LIFO"), "bound": 1 if q else 2, "demote": True},
     ]
     plan.append({"scens": wcat.special_dep_scenarios(failing=True), "policies": ("FIFO", "LIFO"), "bound": 1})
+    plan.append({"scens": wcat.carry_scenarios(), "policies": ("FIFO", "LIFO", "JOBS"), "bound": 1})
     plan.append({"scens": wcat.wait_scenarios(), "policies": ("FIFO", "LIFO", "JOBS"), "bound": 1})
     for pol in ("FIFO", "LIFO", "Q:1,2,job"):
         plan.append({"scens": wcat.jobkill_scenarios(), "policies": (pol,), "kills": {"restart_bound": 0}})
